@@ -12,4 +12,4 @@ require (
 	golang.org/x/sys v0.45.0 // indirect
 )
 
-replace github.com/gopacket/gopacket => /tmp/c05-wt
+replace github.com/gopacket/gopacket => /tmp/bc02-wt
